@@ -105,6 +105,11 @@ static void suite_parse(Rng &rng) {
     vector_case({M, opt_i("nope.txt", false), opt_i(in_ok, true), opt_k(KEY_OK), opt_o("out.bin", true)});
     vector_case({M, opt_i(in_ok, true), opt_i(inputs[2].first, true), opt_k(KEY_OK), opt_o("out.bin", true), opt_o("out2", true)});
     vector_case({M, opt_i(in_ok, true), opt_k(KEY_OK), opt_k("AAAAAAAAAAAAAAAAAAAAAA=="), opt_o("out.bin", true)});
+    vector_case({M, opt_i(in_ok, true), opt_k(KEY_OK), opt_k("not-a-key"), opt_o("out.bin", true)});
+    vector_case({M, opt_i(in_ok, true), opt_k("not-a-key"), opt_k(KEY_OK), opt_o("out.bin", true)});
+    vector_case({M, opt_k(KEY_OK), opt_k(KEY_OK), opt_k("AAAA"), opt_i(in_ok, true)});
+    vector_case({M, opt_i(in_ok, true), opt_k(KEY_OK), opt_o("out.bin", true), {"?", {"-x"}}});
+    vector_case({M, opt_i(in_ok, true), opt_o("out.bin", true), opt_k(KEY_OK), opt_c("9")});
     vector_case({M, opt_i(in_ok, true), opt_c("1"), opt_c("2")}); vector_case({M, opt_i(in_ok, true), opt_h("1"), opt_h("1")}); vector_case({M, opt_i(in_ok, true), opt_c("-1"), opt_c("2")});
     // unknown options, -m, a missing argument at the end, an option swallowed as an argument, stray words
     vector_case({M, opt_i(in_ok, true), {"?", {"-x"}}}); vector_case({M, {"?", {"--bogus"}}, opt_i(in_ok, true)}); vector_case({M, opt_i(in_ok, true), {"m:" + hexs("3"), {"-m", "3"}}});
@@ -131,6 +136,168 @@ static void suite_parse(Rng &rng) {
     vector_case(v);
   }
   emitI("cli", "vectors", S(g_vectors));
+}
+
+// ---- C15: parses repeated in one process behave as in a fresh process (getopt cursor, default output name)
+static std::string parse_fresh(const std::vector<std::string> &args, bool key_given) {
+  int p[2]; if (pipe(p) != 0) abort();
+  fflush(g_proto);
+  pid_t pid = fork();
+  if (pid == 0) { close(p[0]); std::string r = real_parse(args, key_given); ssize_t w = write(p[1], r.data(), r.size()); (void)w; _exit(0); }
+  close(p[1]); std::string r; char buf[4096]; ssize_t n; while ((n = read(p[0], buf, sizeof buf)) > 0) r.append(buf, n);
+  close(p[0]); int st; waitpid(pid, &st, 0); if (!WIFEXITED(st) || WEXITSTATUS(st) != 0) r = "crash"; return r;
+}
+static void suite_parsehist(Rng &rng) {
+  std::string in_ok = "in.txt"; write_file(in_ok, rng.buf(100));
+  std::string in2 = "second-input-file.dat"; write_file(in2, rng.buf(50));
+  std::vector<std::vector<std::string>> pool = {
+    {"-e", "-i", in_ok, "-k", KEY_OK, "-o", "out.bin", "--cmode", "3", "--hmode", "2"}, {"--cmode", "2", "--hmode", "1", "-e", "-i", in_ok, "-o", "out.bin"},
+    {"-d", "-i", in_ok, "-k", KEY_OK, "-o", "out2"}, {"-v", "-i", in2, "-k", KEY_OK}, {"-e", "-i", in2},
+    {"-v", "-k", "not-a-base64-key"}, {"-e", "-d", "-i", in_ok}, {"-e", "-i", "nope.txt"}, {"-e", "-i", in_ok, "-x"}, {"-e", "-i", in_ok, "--cmode", "9"},
+    {"-d", "-i", in_ok, "-o", "nodir/x", "-k", KEY_OK}, {"-e", "-i", in_ok, "--cmode", "1", "--cmode", "2"}, {"-V"}, {"-h"}, {"-e"}, {"-i", in_ok}, {"-e", "-i", in_ok, "-k", "short"} };
+  long hist = tier_thorough() ? 600 : 120, steps = 0;
+  for (long hi = 0; hi < hist; hi++) {
+    int len = 2 + rng.below(4); std::string trail;
+    for (int s = 0; s < len; s++) {
+      auto &a = pool[rng.below((uint32_t)pool.size())]; bool kg = std::find(a.begin(), a.end(), "-k") != a.end();
+      std::string d = "[" ; for (auto &x : a) d += " " + x; d += " ]"; trail += d;
+      trace_case("parsehist", trail);
+      std::string fresh = parse_fresh(a, kg), here = real_parse(a, kg); steps++;
+      DIR *dd = opendir("."); if (dd) { struct dirent *e; while ((e = readdir(dd))) { std::string n = e->d_name; if (n.size() > 4 && (n.rfind(".wenc") == n.size() - 5 || n.compare(0, 3, "out") == 0)) unlink(n.c_str()); } closedir(dd); }
+      if (fresh != here) { emitA("parsehist", "C15", "command line " + S(s) + " of a history parsed in one process gives [" + here + "] but [" + fresh + "] in a fresh process; history: " + trail); break; }
+    }
+  }
+  emitI("parsehist", "parses", S(steps));
+}
+
+
+// ---- C17 + C15 at the level of raw argv words: histories of command lines run one after the other in this process; every
+// outcome is compared (M) with the Lean model of getopt_long + get_v_opt (Model/Getopt.lean, `argv` driver command), and (A)
+// with the same command line parsed in a fresh process. The scratch directory is put back after every command line.
+static bool simple_name(const std::string &w) { return !w.empty() && w.size() <= 200 && w.find('/') == std::string::npos && w != "." && w != ".." && w != "sub"; }
+static bool can_create(const std::string &w) { if (simple_name(w)) return true; return w.compare(0, 4, "sub/") == 0 && simple_name(w.substr(4)); }
+static std::vector<std::string> g_fixed_inputs;
+static void restore_scratch() {
+  DIR *d = opendir("."); if (d) { struct dirent *e; std::vector<std::string> del; while ((e = readdir(d))) { std::string n = e->d_name; if (n == "." || n == ".." || n == "sub") continue; if (std::find(g_fixed_inputs.begin(), g_fixed_inputs.end(), n) != g_fixed_inputs.end()) continue; del.push_back(n); } closedir(d); for (auto &n : del) unlink(n.c_str()); }
+  d = opendir("sub"); if (d) { struct dirent *e; std::vector<std::string> del; while ((e = readdir(d))) { std::string n = e->d_name; if (n == "." || n == "..") continue; del.push_back("sub/" + n); } closedir(d); for (auto &n : del) unlink(n.c_str()); }
+}
+static const char *KEY2 = "AAAAAAAAAAAAAAAAAAAAAA=="; // sixteen zero bytes
+static std::string real_parse_raw(const std::vector<std::string> &args) {
+  std::vector<std::string> a = args; a.insert(a.begin(), "./Wencry");
+  std::vector<char *> av; for (auto &s : a) av.push_back((char *)s.c_str()); av.push_back(NULL);
+  u8_t *vals = get_v_opt((int)a.size(), av.data());
+  if (vals == NULL) return "diag";
+  vpak_t *p = (vpak_t *)vals; std::string r;
+  if (p->mode == 'V' || p->mode == 'h') r = "info";
+  else {
+    static const unsigned char zero16[16] = {0};
+    std::string k = "null";
+    if (p->key) k = (memcmp(p->key, KEY_OK_BYTES, 16) == 0 || memcmp(p->key, zero16, 16) == 0) ? hex(p->key, 16) : std::string("*");
+    r = "run " + std::string(1, p->mode) + " " + (p->fp ? hexs(fdpath(p->fp)) : std::string("null")) + " " + (p->out ? hexs(fdpath(p->out)) : std::string("null")) + " " + k + " " + S(p->ctype) + " " + S(p->htype) + " " + S(p->no_echo ? 1 : 0);
+  }
+  if (p->fp) fclose(p->fp);
+  if (p->out) fclose(p->out);
+  delete[] p->key; delete p;
+  return r;
+}
+static std::string parse_fresh_raw(const std::vector<std::string> &args) {
+  int p[2]; if (pipe(p) != 0) abort();
+  fflush(g_proto);
+  pid_t pid = fork();
+  if (pid == 0) { close(p[0]); std::string r = real_parse_raw(args); ssize_t w = write(p[1], r.data(), r.size()); (void)w; _exit(0); }
+  close(p[1]); std::string r; char buf[4096]; ssize_t n; while ((n = read(p[0], buf, sizeof buf)) > 0) r.append(buf, n);
+  close(p[0]); int st; waitpid(pid, &st, 0); if (!WIFEXITED(st) || WEXITSTATUS(st) != 0) r = "crash"; return r;
+}
+static std::string hexw(const std::string &w) { return w.empty() ? std::string("~") : hexs(w); }
+static void suite_argvhist(Rng &rng) {
+  std::string in_ok = "in.txt", in2 = "second-input-file.dat", inlong(126, 'L');
+  write_file(in_ok, rng.buf(100)); write_file(in2, rng.buf(50)); write_file(inlong, rng.buf(10));
+  g_fixed_inputs = {in_ok, in2, inlong};
+  const std::vector<std::string> modes = {"-e", "-d", "-v", "-V", "-h", "--encode", "--decode", "--verify", "--version", "--help", "--enc", "--dec", "--veri", "--vers", "--he", "--e", "--d"};
+  const std::vector<std::string> flags = {"-n", "--no_echo", "--no", "--n", "-ne", "-en", "-nd", "-nv", "-nn"};
+  const std::vector<std::string> bad = {"-x", "-Z", "-:", "-;", "--bogus", "--bogus=1", "--ver", "--v", "--", "-", "--=x", "--encode=1", "--help=", "-m", "-m1", "-eZ", "-eZq", "-edv", "-dve", "-ved", "-nZe", "-eex", "-e:", "--cmode", "--key", "-k", "-i", "-o", "--c", "--h", "--hm", "--cm", "--o", "--i", "--k", "--ke"};
+  const std::vector<std::string> ins = {in_ok, in2, "nope.txt", inlong, "", "out.bin"};
+  const std::vector<std::string> outs = {"out.bin", "out2", "sub/y", "nodir/x", "", in_ok, "-e"};
+  const std::vector<std::string> keys = {KEY_OK, KEY2, "not-a-key", "short", "ABEiM0RVZneImaq7zN3u/w=", ""};
+  const std::vector<std::string> nums = {"0", "1", "2", "3", "4", "5", "9", "-1", " 2", "2x", "", "256", "+1"};
+  auto pick = [&](const std::vector<std::string> &v) { return v[rng.below((uint32_t)v.size())]; };
+  auto with_arg = [&](std::vector<std::string> &out, const std::string &sh, const std::vector<std::string> &longs, const std::string &val) {
+    switch (rng.below(5)) {
+      case 0: out.push_back(sh); out.push_back(val); break;
+      case 1: if (!val.empty()) { out.push_back(sh + val); break; } out.push_back(sh); out.push_back(val); break;
+      case 2: out.push_back(pick(longs)); out.push_back(val); break;
+      case 3: out.push_back(pick(longs) + "=" + val); break;
+      default: { std::string fl = pick({"-n", "-e", "-d", "-v"}); out.push_back(fl + sh.substr(1) + val); if (val.empty()) out.push_back(val); } break; } };
+  auto gen_cmd = [&]() {
+    std::vector<std::string> a; int kind = (int)rng.below(10);
+    if (kind < 6) {               // mostly valid, random spelling
+      std::vector<std::vector<std::string>> parts; std::vector<std::string> t;
+      t.clear(); t.push_back(pick(modes)); parts.push_back(t);
+      if (rng.below(8)) { t.clear(); with_arg(t, "-i", {"--input", "--in", "--inp"}, rng.below(5) ? in_ok : pick(ins)); parts.push_back(t); }
+      if (rng.below(3)) { t.clear(); with_arg(t, "-o", {"--output", "--out", "--outp"}, rng.below(4) ? "out.bin" : pick(outs)); parts.push_back(t); }
+      if (rng.below(3)) { t.clear(); with_arg(t, "-k", {"--key", "--ke"}, rng.below(4) ? KEY_OK : pick(keys)); parts.push_back(t); }
+      if (!rng.below(3)) { t.clear(); std::string v = pick(nums); if (rng.below(2)) { t.push_back(pick({"--cmode", "--cm", "--cmod"})); t.push_back(v); } else t.push_back("--cmode=" + v); parts.push_back(t); }
+      if (!rng.below(3)) { t.clear(); std::string v = pick(nums); if (rng.below(2)) { t.push_back(pick({"--hmode", "--hm"})); t.push_back(v); } else t.push_back("--hmode=" + v); parts.push_back(t); }
+      if (!rng.below(4)) { t.clear(); t.push_back(pick(flags)); parts.push_back(t); }
+      if (!rng.below(5)) { t.clear(); t.push_back(pick(bad)); parts.push_back(t); }
+      if (!rng.below(5)) { t.clear(); t.push_back(pick({"stray", "in.txt", "x", "-"})); parts.push_back(t); }   // non-option words
+      for (size_t i = parts.size(); i > 1; i--) std::swap(parts[i - 1], parts[rng.below((uint32_t)i)]);
+      for (auto &pp : parts) for (auto &w : pp) a.push_back(w);
+    } else if (kind < 8) {        // a command line abandoned inside an option cluster
+      a.push_back(pick({"-edv", "-eZq", "-dve", "-ved", "-eex", "-nZe", "-ddn", "-vvi", "-eeo", "-ddk", "-hVe", "-Ven"}));
+      if (rng.below(2)) { a.push_back("-i"); a.push_back(in_ok); }
+      if (rng.below(2)) a.insert(a.begin(), pick(modes));
+    } else {                      // word soup
+      int n = 1 + (int)rng.below(6);
+      for (int i = 0; i < n; i++) switch (rng.below(7)) { case 0: a.push_back(pick(modes)); break; case 1: a.push_back(pick(flags)); break; case 2: a.push_back(pick(bad)); break;
+        case 3: a.push_back(pick(ins)); break; case 4: a.push_back(pick(outs)); break; case 5: a.push_back(pick(keys)); break; default: a.push_back(pick(nums)); break; }
+    }
+    return a; };
+  long hist = tier_thorough() ? 4000 : 500, steps = 0, aborted = 0, accepted = 0;
+  for (long hi = 0; hi < hist; hi++) {
+    int len = 1 + (int)rng.below(4);
+    std::vector<std::vector<std::string>> cmds; for (int s = 0; s < len; s++) cmds.push_back(gen_cmd());
+    // environment lists for the model: existing files; creatable = every possible option argument (suffixes of words, text after '=') that can be created, and its default output name
+    std::vector<std::string> creat;
+    auto consider = [&](const std::string &w) { if (can_create(w) && std::find(creat.begin(), creat.end(), w) == creat.end()) creat.push_back(w); std::string d = (w + ".wenc").substr(0, 127); if (can_create(d) && std::find(creat.begin(), creat.end(), d) == creat.end()) creat.push_back(d); };
+    for (auto &c : cmds) for (auto &w : c) { for (size_t k = 0; k <= w.size(); k++) consider(w.substr(k)); }
+    std::string req = "argv fixed ";
+    for (size_t i = 0; i < g_fixed_inputs.size(); i++) req += (i ? "," : "") + hexs(g_fixed_inputs[i]);
+    req += " "; if (creat.empty()) req += "-"; for (size_t i = 0; i < creat.size(); i++) req += (i ? "," : "") + hexw(creat[i]);
+    // the whole history runs in a forked child (a process of its own, so that a failure is reproduced by this history alone);
+    // inside it every command line is parsed in-process and, for comparison, in a fresh grand-child
+    std::string trail_all; for (auto &c : cmds) { req += " ; " + hexs("./Wencry"); for (auto &w : c) req += " " + hexw(w); std::string d = "["; for (auto &x : c) d += " '" + x + "'"; d += " ]"; trail_all += d; }
+    trace_case("argvhist", trail_all);
+    int pp[2]; if (pipe(pp) != 0) abort();
+    fflush(g_proto);
+    pid_t pid = fork();
+    if (pid == 0) {
+      close(pp[0]);
+      for (size_t s = 0; s < cmds.size(); s++) {
+        std::string fresh = parse_fresh_raw(cmds[s]); restore_scratch();
+        std::string mark = "B\t" + S((long)s) + "\n"; ssize_t w0 = write(pp[1], mark.data(), mark.size()); (void)w0;
+        std::string here = real_parse_raw(cmds[s]); restore_scratch();
+        std::string ln = "R\t" + here + "\t" + fresh + "\n"; ssize_t w1 = write(pp[1], ln.data(), ln.size()); (void)w1;
+      }
+      _exit(0);
+    }
+    close(pp[1]); std::string res; { char buf[4096]; ssize_t n; while ((n = read(pp[0], buf, sizeof buf)) > 0) res.append(buf, n); } close(pp[0]);
+    int st = 0; waitpid(pid, &st, 0); restore_scratch();
+    std::string real; size_t done = 0, begun = 0; bool diverged = false; size_t pos = 0;
+    while (pos < res.size()) { size_t e = res.find('\n', pos); if (e == std::string::npos) break; std::string ln = res.substr(pos, e - pos); pos = e + 1;
+      if (ln.compare(0, 2, "B\t") == 0) { begun++; continue; }
+      if (ln.compare(0, 2, "R\t") != 0) continue;
+      size_t t = ln.find('\t', 2); std::string here = ln.substr(2, t - 2), fresh = ln.substr(t + 1);
+      steps++; if (here == "diag") aborted++; else accepted++;
+      real += (done ? " | " : "") + here;
+      if (fresh != here && !diverged) { diverged = true; emitA("argvhist", "C15", "command line " + S((long)done) + " of a history parsed in one process gives [" + here + "] but [" + fresh + "] in a fresh process; history: " + trail_all); }
+      done++; }
+    if (!WIFEXITED(st) || WEXITSTATUS(st) != 0) {
+      emitA("argvhist", "C15", "the parser crashed (wait status " + S(st) + ") on command line " + S((long)(begun ? begun - 1 : 0)) + " of a history parsed in one process (each command line alone parses without a crash in a fresh process); history: " + trail_all);
+      continue; }
+    emitM("argvhist", req, real);
+  }
+  emitI("argvhist", "command_lines", S(steps)); emitI("argvhist", "rejected", S(aborted)); emitI("argvhist", "accepted", S(accepted));
 }
 
 // ---- the real binary
@@ -265,6 +432,8 @@ int main(int argc, char **argv) {
   mkdir("sub", 0755);
   if (which == "parse" || which == "all") suite_parse(rng);
   if (which == "bin" || which == "all") suite_bin(rng);
+  if (which == "parsehist") suite_parsehist(rng);
+  if (which == "argvhist") suite_argvhist(rng);
   fflush(g_proto);
   if (chdir("/") != 0) return 2;
   std::string cmd = "rm -rf '" + scratch + "'"; int rc = system(cmd.c_str()); (void)rc;
